@@ -221,8 +221,29 @@ def owner_methods(m, F, E, L):
         ti = f.this_index()
         s = E.sum[name]
         if ti in s['writes'] or ti in s['frees'] or is_ctor(f) or is_dtor(f):
+            if not (is_ctor(f) or is_dtor(f)) and only_through_members(m, E, f, L.cls):
+                continue        # writes its object only by calling other members of the class: covered by their analysis (induction)
             out.append(f)
     return out
+
+
+def only_through_members(m, E, f, cls):
+    try:
+        ex = E.explain(f.name, f.this_index())
+    except Exception:
+        return False
+    if not ex:
+        return False
+    for (i, kind) in ex:
+        if not kind.startswith('call ') or i.op not in ('call', 'invoke') or not i.callee:
+            return False
+        tg = m.resolve(i.callee)
+        if not m.has(tg):
+            return False
+        g = m.func(tg)
+        if class_of(g) != cls or g.name == f.name:
+            return False
+    return True
 
 
 def check(run):
